@@ -9,6 +9,7 @@ import TongoProofs.Lemmas.Base64Bits
 import TongoProofs.Lemmas.AddrRoundtrip
 import TongoProofs.Lemmas.AddrRoot
 import TongoProofs.Lemmas.AddrTlbSpec
+import TongoProofs.Lemmas.AddrShard
 /-! Property C17 — account addresses and shard ids keep their meaning across all forms.
 Property theorems only (helper lemmas live in TongoProofs/Lemmas).
 
@@ -127,11 +128,11 @@ theorem child_extends_prefix (s : BitVec 64) (l : Bool) (h0 : s ≠ 0) (h : s.ge
     (shardChild s l).getMsbD (shardLen s) = !l :=
   ⟨Shard.child_len s l h0 h, Shard.child_prefix s l h0 h⟩
 
-/-- convertShardIdent for prefix lengths 0..60 (proved for 0..63): a prefix confined to its top `n` bits becomes the shard
-id that parses back to exactly that prefix and mask, with prefix length `n` -/
-theorem convert_shard_ident (pfx : BitVec 64) (n : Nat) (hn : n ≤ 60) (hp : pfx &&& (BitVec.allOnes 64 >>> n) = 0) :
+/-- convertShardIdent for every prefix length 0..63 (the property asks for 0..60): a prefix confined to its top `n` bits
+becomes the shard id that parses back to exactly that prefix and mask, with prefix length `n` -/
+theorem convert_shard_ident (pfx : BitVec 64) (n : Nat) (hn : n ≤ 63) (hp : pfx &&& (BitVec.allOnes 64 >>> n) = 0) :
     parseShardID (convertShardIdent pfx (BitVec.ofNat 8 n)) = some ⟨pfx, BitVec.allOnes 64 <<< (64 - n)⟩ ∧
-    shardLen (convertShardIdent pfx (BitVec.ofNat 8 n)) = n := Shard.convert_shard_ident pfx n hn hp
+    shardLen (convertShardIdent pfx (BitVec.ofNat 8 n)) = n := Shard.convert_shard_ident_63 pfx n hn hp
 
 /-- the anycast rewrite for depths 1..30: the top `d` bits of the address prefix become `rewrite_pfx`, the other
 `32 - d` bits are kept -/
@@ -226,6 +227,33 @@ theorem tlb_bits_eq_tlb_spec (m : MsgAddress) (h : m.WF) :
 (`WF'` = `WF` with anycast depth up to 31, which the Go reader accepts) -/
 theorem tlb_bits_roundtrip_all (m : MsgAddress) (h : m.WF') (rest : List Bool) :
     ∃ bs, tlbBits m = some bs ∧ parseTlbBits (bs ++ rest) = .ok m := Address.tlb_bits_roundtrip_all m h rest
+
+/-- MatchAccountID on the AccountID BYTES (not on a pre-read 64-bit word): `binary.BigEndian.Uint64(a.Address[:8])` is
+modelled by `be64`, and the account matches exactly when the shard's `shardLen` prefix bits are the first bits of the
+address, byte 0 most significant bit first — prefix lengths 0..63 -/
+theorem match_account_is_prefix (m : BitVec 64) (a : AccountID) (hm : m ≠ 0) :
+    ∃ s, parseShardID m = some s ∧
+      (matchAccountID s a = true ↔ ∀ i, i < shardLen m → addrBit a.addr i = m.getMsbD i) :=
+  Address.match_account_is_prefix m a hm
+
+/-- Parse∘Encode: every well-formed ShardID (mask `1…10…0` with `k+1 ≤ 64` low zeros, prefix inside the mask) encodes
+without panic to a non-zero id that parses back to it; `parse_shard_id_wf` shows these are exactly the parser's results -/
+theorem shard_roundtrip_parse_encode (s : ShardID) (k : Nat) (hk : k ≤ 63)
+    (hmask : s.mask = BitVec.allOnes 64 <<< (k + 1)) (hp : s.pfx &&& ~~~s.mask = 0#64) :
+    ∃ m, encode s = some m ∧ m ≠ 0 ∧ parseShardID m = some s := Address.shard_roundtrip_parse_encode s k hk hmask hp
+
+/-- every parsed shard id satisfies the hypotheses of `shard_roundtrip_parse_encode` -/
+theorem parse_shard_id_wf (m : BitVec 64) (h : m ≠ 0) :
+    ∃ s k, parseShardID m = some s ∧ k ≤ 63 ∧ s.mask = BitVec.allOnes 64 <<< (k + 1) ∧ s.pfx &&& ~~~s.mask = 0 :=
+  Address.parseShardID_wf m h
+
+/-- the anycast rewrite at the level of the 32 address BYTES (ton.AccountIDFromTlb): for depths 1..30 the first `d`
+address bits become rewrite_pfx (most significant first), every other bit is unchanged, the length stays 32 -/
+theorem anycast_rewrite_bytes (addr : List Byte) (h : addr.length = 32) (d : Nat) (p : BitVec 32)
+    (h1 : 1 ≤ d) (h30 : d ≤ 30) (hp : p.toNat < 2 ^ d) :
+    (rewriteAddr addr (BitVec.ofNat 32 d) p).length = 32 ∧
+    ∀ i, i < 256 → addrBit (rewriteAddr addr (BitVec.ofNat 32 d) p) i =
+      if i < d then p.getLsbD (d - 1 - i) else addrBit addr i := Address.rewriteAddr_bits addr h d p h1 h30 hp
 
 /-- ADNL: the 55-character lower-case base32 form of every 32-byte address parses back (with or without `.adnl`) -/
 theorem adnl_base32_roundtrip (addr : List Byte) (h : addr.length = 32) :
